@@ -17,7 +17,38 @@ import (
 type DatasetWorld struct {
 	D [2]*dataset.Dataset
 	M [2][]float64
+	// Log is the history that built this world (so that the oracle can rebuild
+	// it and put each observer first after the last mutation)
+	Log []func(*DatasetWorld)
 }
+
+func (w *DatasetWorld) rebuild() *DatasetWorld {
+	n := &DatasetWorld{D: [2]*dataset.Dataset{dataset.NewDataset(), dataset.NewDataset()}}
+	for _, f := range w.Log {
+		f(n)
+	}
+	return n
+}
+
+func dsOp(name string, writes uint32, f func(*DatasetWorld)) mc.Op[*DatasetWorld] {
+	return mc.Op[*DatasetWorld]{Name: name, Writes: writes, Do: func(w *DatasetWorld) { w.Log = append(w.Log, f); f(w) }}
+}
+
+// firstObservers: each is called as the very first query after the history on
+// a world of its own (queries sort lazily, so an answer may depend on whether
+// another query ran before it).
+var firstObservers = []struct {
+	name string
+	call func(d *dataset.Dataset) float64
+	want func(xs []float64) float64
+}{
+	{"Min()", func(d *dataset.Dataset) float64 { return d.Min() }, func(xs []float64) float64 { return xs[0] }},
+	{"Max()", func(d *dataset.Dataset) float64 { return d.Max() }, func(xs []float64) float64 { return xs[len(xs)-1] }},
+	{"LowerQuantile(0)", func(d *dataset.Dataset) float64 { return d.LowerQuantile(0) }, func(xs []float64) float64 { return xs[0] }},
+	{"UpperQuantile(1)", func(d *dataset.Dataset) float64 { return d.UpperQuantile(1) }, func(xs []float64) float64 { return xs[len(xs)-1] }},
+	{"Quantile(1)", func(d *dataset.Dataset) float64 { return d.Quantile(1) }, func(xs []float64) float64 { return xs[len(xs)-1] }},
+}
+
 
 func observeDataset(d *dataset.Dataset, n int) string {
 	b := make([]byte, 0, 256)
@@ -85,6 +116,14 @@ func checkDataset(w *DatasetWorld) (obs []uint64, fails []mc.Fail) {
 			if d.Min() != xs[0] || d.Max() != xs[n-1] {
 				fail("C20.extremes", "Min=%v Max=%v, exact %v and %v", d.Min(), d.Max(), xs[0], xs[n-1])
 			}
+			for _, fo := range firstObservers {
+				if got, want := fo.call(w.rebuild().D[s]), fo.want(xs); got != want {
+					fail("C20.first-query", "%s as the first query after the history answered %v, exact %v", fo.name, got, want)
+				}
+			}
+			if got := w.rebuild().D[s].Sum(); math.Abs(got-d.Sum()) > 0 {
+				fail("C20.first-query", "Sum() as the first query after the history answered %v, after other queries %v", got, d.Sum())
+			}
 		}
 		var ent []Entry
 		for _, v := range vals {
@@ -115,17 +154,24 @@ func datasetScenario(tier string) *mc.Scenario[*DatasetWorld] {
 			if s == 1 && vi%2 == 1 {
 				continue
 			}
-			sc.Ops = append(sc.Ops, mc.Op[*DatasetWorld]{Name: fmt.Sprintf("%s.Add(%s)", slotName(s), fstr(v)), Writes: 1 << uint(s),
-				Do: func(w *DatasetWorld) { w.D[s].Add(v); w.M[s] = append(w.M[s], v) }})
+			sc.Ops = append(sc.Ops, dsOp(fmt.Sprintf("%s.Add(%s)", slotName(s), fstr(v)), 1<<uint(s),
+				func(w *DatasetWorld) { w.D[s].Add(v); w.M[s] = append(w.M[s], v) }))
 		}
-		sc.Ops = append(sc.Ops, mc.Op[*DatasetWorld]{Name: fmt.Sprintf("query %s: LowerQuantile(0.5)", slotName(s)),
-			Do: func(w *DatasetWorld) { w.D[s].LowerQuantile(0.5) }})
-		sc.Ops = append(sc.Ops, mc.Op[*DatasetWorld]{Name: fmt.Sprintf("query %s: Sum, UpperQuantile(1)", slotName(s)),
-			Do: func(w *DatasetWorld) { w.D[s].Sum(); w.D[s].UpperQuantile(1) }})
+		sc.Ops = append(sc.Ops, dsOp(fmt.Sprintf("query %s: LowerQuantile(0.5)", slotName(s)), 0,
+			func(w *DatasetWorld) { w.D[s].LowerQuantile(0.5) }))
+		sc.Ops = append(sc.Ops, dsOp(fmt.Sprintf("query %s: Sum, UpperQuantile(1)", slotName(s)), 0,
+			func(w *DatasetWorld) { w.D[s].Sum(); w.D[s].UpperQuantile(1) }))
+		sc.Ops = append(sc.Ops, dsOp(fmt.Sprintf("query %s: Min, Max", slotName(s)), 0,
+			func(w *DatasetWorld) {
+				if len(w.M[s]) > 0 { // the extremes of an empty dataset are not defined (and not claimed)
+					w.D[s].Min()
+					w.D[s].Max()
+				}
+			}))
 	}
 	sc.Ops = append(sc.Ops,
-		mc.Op[*DatasetWorld]{Name: "a.Merge(b)", Writes: 1, Do: func(w *DatasetWorld) { w.D[0].Merge(w.D[1]); w.M[0] = append(w.M[0], w.M[1]...) }},
-		mc.Op[*DatasetWorld]{Name: "b.Merge(a)", Writes: 2, Do: func(w *DatasetWorld) { w.D[1].Merge(w.D[0]); w.M[1] = append(w.M[1], w.M[0]...) }})
+		dsOp("a.Merge(b)", 1, func(w *DatasetWorld) { w.D[0].Merge(w.D[1]); w.M[0] = append(w.M[0], w.M[1]...) }),
+		dsOp("b.Merge(a)", 2, func(w *DatasetWorld) { w.D[1].Merge(w.D[0]); w.M[1] = append(w.M[1], w.M[0]...) }))
 	sc.Dump = func(w *DatasetWorld, d *mc.Dumper) {
 		for s := 0; s < 2; s++ {
 			d.Value(w.D[s])
@@ -151,7 +197,7 @@ func datasetScenario(tier string) *mc.Scenario[*DatasetWorld] {
 func init() {
 	mc.Register(&mc.Property{
 		ID: "C20", Level: "model_checking",
-		Rule:        "explicit-state BFS over histories of two real datasets: Add(v) for v in {-2,-1,0,1,3.5} (duplicates arise by repetition), queries as transitions (they sort lazily), Merge in both directions; a case is one distinct concrete state (values in their current order, count, the private sorted flag) with the multiset added; every state is compared with a sorted slice on count, min, max, sum and lower/upper/plain quantile at every q of Q(n) and at out-of-range q; frame clause: queries and being the argument of Merge change no answer; distinct_nontrivial counts distinct pairs of multisets",
+		Rule:        "explicit-state BFS over histories of two real datasets: Add(v) for v in {-2,-1,0,1,3.5} (duplicates arise by repetition), queries as transitions (they sort lazily), Merge in both directions; a case is one distinct concrete state (values in their current order, count, the private sorted flag) with the multiset added; every state is compared with a sorted slice on count, min, max, sum and lower/upper/plain quantile at every q of Q(n) and at out-of-range q, and Min, Max, the extreme quantiles and Sum are each also asked as the very first query after the history on a rebuilt instance; frame clause: queries and being the argument of Merge change no answer; distinct_nontrivial counts distinct pairs of multisets",
 		Assumptions: []string{"the rank may be computed exactly or as the float64 product q*(n-1) (both floors/ceilings are accepted)", "NaN as q is outside the stated domain and is not probed; Min/Max are queried on non-empty datasets only"},
 		Shards: func(tier string) []mc.Shard {
 			return []mc.Shard{mc.ShardOf(datasetScenario(tier), 1)}
